@@ -514,6 +514,10 @@ fn gen_zone(r: &mut Rng, zid: u64, systematic: bool) -> Zone {
 }
 
 fn gen_qname(r: &mut Rng, z: &Zone) -> Nm {
+    if r.chance(1, 60) {
+        // the root, or a top-level name
+        return if r.chance(1, 2) { vec![] } else { vec![gen_label(r, true)] };
+    }
     match r.below(20) {
         0..=8 => gen_below(r, &z.apex, 3, false),
         9 | 10 => gen_below(r, &z.apex, 4, true),
@@ -952,12 +956,15 @@ fn case(seed: u64, index: u64) -> CaseOut {
         known = kclass.map(|s| s.to_string());
     }
     if let Some((want_obs, want_claim)) = fixed_expect {
-        // the witnesses of Props.v must behave on the real code as the theorems say of the model
-        if oracle_fail.is_none() && (obs != want_obs || claim != want_claim || applicable == (p.family == "fixed-foreign-soa")) {
-            oracle_fail = Some(format!(
-                "fixed witness no longer behaves as recorded: expected {} with claim {}, got {} with claim {}",
-                ["Bogus", "Secure"][want_obs as usize], want_claim, ["Bogus", "Secure", "other", "panic"][obs as usize], claim
-            ));
+        // Witnesses of Props.v.  The oracle's own verdict must be the recorded one (the harness
+        // is wrong otherwise); a true claim with a sufficient proof must be accepted.  That the
+        // defect witnesses still behave as recorded is the tie's business (model = code), not a
+        // property violation: repairing a defect changes them legitimately.
+        if oracle_fail.is_none() && (claim != want_claim || applicable == (p.family == "fixed-foreign-soa")) {
+            oracle_fail = Some(format!("harness oracle disagrees with the recorded verdict of a fixed witness (claim {claim}, expected {want_claim})"));
+            known = None;
+        } else if oracle_fail.is_none() && p.family == "fixed-accepted" && obs != want_obs {
+            oracle_fail = Some("incomplete: a true claim with an RFC-complete proof (RFC 4035 B.2/B.3/B.6/B.7 pattern) is rejected".to_string());
             known = None;
         }
     }
